@@ -66,3 +66,325 @@ Example c02_dup_id_caveat :
   let l := fold_left (fun l h => insert_sorted l 0 h false) [(7, a1); (7, a2); (7, a3); (7, a2)] [] in
   length l = 4%nat.
 Proof. vm_compute. reflexivity. Qed.
+
+(* ================================================================== second part: nothing heard of is left unqueried *)
+(* The convergence argument has two halves.  "The answers name ever closer nodes until the 8 closest
+   are known" depends on what the other nodes answer and is decided on simulated runs.  The other
+   half is about this node's code alone and is proved here for all inputs: every node named in an
+   accepted answer becomes a candidate; a candidate is flagged "queried" only if a get_peers has been
+   sent to it; the end-game round queries every candidate that is not flagged.  So when a search
+   enters its end-game, every node it has heard of has been queried or is queried in that very step,
+   and (C04: c04_closed_in_endgame) a search only ever ends through its end-game. *)
+From BT Require Import proofs.Refresh_Facts proofs.Termination_Facts proofs.Heard_Facts.
+Open Scope N_scope.
+
+(* the queries of one round: one get_peers per node, in order, the k-th message id of the activity
+   for the k-th query it sends *)
+Theorem c02_round_sends_meaning : forall I own act target k,
+  round_sends I own act target k [] = [] /\
+  forall h r, round_sends I own act target k (h :: r) =
+              OSend (snd h) (get_peers_msg own (tid_bytes (aid_of I act) (mid_of I act k)) target)
+              :: round_sends I own act target (S k) r.
+Proof. exact round_sends_unfold. Qed.
+
+(* (L1) HEARD => CANDIDATE.  The bookkeeping of an accepted answer: every candidate stays one (same
+   distance, node, flag); every node named in the answer is a candidate afterwards, under its XOR
+   distance to the target -- it either was one already (then its flag is unchanged) or it is a new
+   entry whose flag says whether the node matches one of the iterate slots; nothing else is added;
+   and the iterate slots hold nodes of this answer that had not been requested before. *)
+Theorem c02_heard_becomes_candidate : forall lk from tid r (v6 : bool) dist_to_beat,
+  let nodes := map handle_of (if v6 then r_nodes6 r else r_nodes4 r) in
+  let lk' := fst (fst (rr_accept lk from tid r v6 dist_to_beat)) in
+  let iterate := snd (fst (rr_accept lk from tid r v6 dist_to_beat)) in
+  (forall x, In x (lk_sorted lk) -> In x (lk_sorted lk')) /\
+  (forall h, In h nodes ->
+     (exists flag, In (N.lxor (lk_target lk) (fst h), h, flag) (lk_sorted lk)) \/
+     In (N.lxor (lk_target lk) (fst h), h, match iterate with Some s => slot_matches s h | None => false end)
+        (lk_sorted lk')) /\
+  (forall x, In x (lk_sorted lk') ->
+     In x (lk_sorted lk) \/
+     exists h, In h nodes /\
+       x = (N.lxor (lk_target lk) (fst h), h, match iterate with Some s => slot_matches s h | None => false end)) /\
+  (forall s, iterate = Some s -> forall h, In h (used_slots s) -> In h nodes /\ ~ In h (lk_requested lk)).
+Proof. exact rr_accept_heard. Qed.
+
+Theorem c02_accept_keeps_requested : forall lk from tid r v6 dist_to_beat,
+  lk_requested (fst (fst (rr_accept lk from tid r v6 dist_to_beat))) = lk_requested lk /\
+  lk_target (fst (fst (rr_accept lk from tid r v6 dist_to_beat))) = lk_target lk /\
+  lk_endgame (fst (fst (rr_accept lk from tid r v6 dist_to_beat))) = lk_endgame lk.
+Proof. exact rr_accept_same. Qed.
+
+(* the flag of a new candidate: the node is in one of the slots -- these are the nodes the following
+   round queries (c02_iterate_round_queries_slots) -- or it is the dummy handle (id 0, 0.0.0.0:0) the
+   unused slots of the fixed-size array hold, with which the code compares it, too *)
+Theorem c02_iterate_flag_meaning : forall slots h,
+  slot_matches slots h = true <-> In h (used_slots slots) \/ (In None slots /\ h = unspecified_handle).
+Proof. exact slot_matches_iff. Qed.
+
+Theorem c02_iterate_slots_at_most_three : forall cands target,
+  (length (used_slots (pick_iterate_slots cands target)) <= iterative_pick)%nat.
+Proof. exact pick_iterate_slots_length. Qed.
+
+(* (L2) REQUEST ROUND.  The outputs added are, in order, one get_peers for the target per node,
+   addressed to that node, with the next message ids of the search; every node whose send succeeded
+   is in the requested set afterwards, together with everything that was in it, and nothing else. *)
+Theorem c02_request_round : forall I sendok own now nodes lk c sent,
+  let lk' := fst (fst (request_round I sendok own now nodes lk c sent)) in
+  let c' := snd (fst (request_round I sendok own now nodes lk c sent)) in
+  cx_out c' = rev (round_sends I own (lk_act lk) (lk_target lk) (lk_next lk) (map fst nodes)) ++ cx_out c /\
+  cx_sends c' = (cx_sends c + length (map fst nodes))%nat /\
+  lk_next lk' = (lk_next lk + length (map fst nodes))%nat /\
+  lk_act lk' = lk_act lk /\ lk_target lk' = lk_target lk /\ lk_endgame lk' = lk_endgame lk /\
+  lk_sorted lk' = lk_sorted lk /\
+  incl (lk_requested lk) (lk_requested lk') /\
+  (forall h, In h (lk_requested lk') -> In h (lk_requested lk) \/ In h (map fst nodes)) /\
+  (forall i h, nth_error (map fst nodes) i = Some h -> sendok (cx_sends c + i)%nat = true -> In h (lk_requested lk')).
+Proof. exact request_round_spec. Qed.
+
+Theorem c02_start_request_round : forall I sendok own now nodes lk c,
+  let lk' := fst (start_request_round I sendok own now nodes lk c) in
+  let c' := snd (start_request_round I sendok own now nodes lk c) in
+  cx_out c' = rev (round_sends I own (lk_act lk) (lk_target lk) (lk_next lk) (map fst nodes)) ++ cx_out c /\
+  cx_sends c' = (cx_sends c + length (map fst nodes))%nat /\
+  lk_next lk' = (lk_next lk + length (map fst nodes))%nat /\
+  lk_act lk' = lk_act lk /\ lk_target lk' = lk_target lk /\ lk_endgame lk' = lk_endgame lk /\
+  lk_sorted lk' = lk_sorted lk /\
+  incl (lk_requested lk) (lk_requested lk') /\
+  (forall h, In h (lk_requested lk') -> In h (lk_requested lk) \/ In h (map fst nodes)) /\
+  (forall i h, nth_error (map fst nodes) i = Some h -> sendok (cx_sends c + i)%nat = true -> In h (lk_requested lk')).
+Proof. exact start_request_round_spec. Qed.
+
+(* the second half of recv_response (search not in its end-game): the queries sent are exactly one
+   per used iterate slot, in slot order, followed -- if nothing is outstanding then -- by the
+   end-game round over the candidates not flagged *)
+Theorem c02_iterate_round_queries_slots : forall I sendok own now lk2 c0 iterate next_dist,
+  lk_endgame lk2 = false ->
+  let hs := match iterate with Some s => used_slots s | None => [] end in
+  cx_out (snd (rr_continue I sendok own now lk2 c0 iterate next_dist)) =
+    (if lk_endgame (fst (rr_continue I sendok own now lk2 c0 iterate next_dist))
+     then rev (round_sends I own (lk_act lk2) (lk_target lk2) (S (lk_next lk2 + length hs))
+                 (map (fun e => snd (fst e)) (filter (fun e => negb (snd e)) (lk_sorted lk2))))
+     else [])
+    ++ rev (round_sends I own (lk_act lk2) (lk_target lk2) (lk_next lk2) hs) ++ cx_out c0.
+Proof. exact rr_continue_out. Qed.
+
+(* (L3) THE END-GAME ROUND QUERIES EVERYBODY LEFT.  Its outputs are exactly one get_peers to each
+   candidate whose flag is false, in list order; the candidates stay the same nodes at the same
+   distances in the same order; the search is in its end-game; the requested set is unchanged; and
+   if the sends succeed every candidate is flagged afterwards. *)
+Theorem c02_endgame_queries_all_unflagged : forall I sendok own now lk c,
+  let lk' := fst (start_endgame I sendok own now lk c) in
+  cx_out (snd (start_endgame I sendok own now lk c))
+    = rev (round_sends I own (lk_act lk) (lk_target lk) (S (lk_next lk))
+             (map (fun e => snd (fst e)) (filter (fun e => negb (snd e)) (lk_sorted lk)))) ++ cx_out c /\
+  map (fun e => (fst (fst e), snd (fst e))) (lk_sorted lk') = map (fun e => (fst (fst e), snd (fst e))) (lk_sorted lk) /\
+  lk_endgame lk' = true /\ lk_target lk' = lk_target lk /\ lk_requested lk' = lk_requested lk /\
+  ((forall k, sendok k = true) -> forall e, In e (lk_sorted lk') -> snd e = true).
+Proof. exact start_endgame_spec. Qed.
+
+(* (L4) THE INITIAL PICKS.  A new search's candidates are the (at most 8) first good nodes of the
+   table enumeration (closest_nodes: C09), kept sorted by distance; the first 4 of them are flagged
+   and are exactly the nodes sent a get_peers, in that order; the requested set holds only those,
+   and all of them if the sends succeed. *)
+Theorem c02_initial_picks : forall I sendok own now act target an c,
+  let good := firstn bucket_size
+                (filter (fun n => status_eqb (node_status now n) Good) (closest_nodes now (cx_table c) target)) in
+  let srt := fold_left (fun l n => insert_sorted l target (nd_id n, nd_addr n) false) good [] in
+  let lk' := fst (lookup_new I sendok own now act target an c) in
+  let c' := snd (lookup_new I sendok own now act target an c) in
+  (forall n, In n good -> In (N.lxor target (nd_id n), (nd_id n, nd_addr n), false) srt) /\
+  (forall e, In e srt -> exists n, In n good /\ e = (N.lxor target (nd_id n), (nd_id n, nd_addr n), false)) /\
+  lk_sorted lk' = map (fun e => (fst (fst e), snd (fst e), true)) (firstn initial_pick srt) ++ skipn initial_pick srt /\
+  cx_out c' = rev (round_sends I own act target 0 (map (fun e => snd (fst e)) (firstn initial_pick srt))) ++ cx_out c /\
+  lk_endgame lk' = false /\ lk_target lk' = target /\ lk_act lk' = act /\
+  ((forall k, sendok k = true) -> forall e, In e (firstn initial_pick srt) -> In (snd (fst e)) (lk_requested lk')) /\
+  (forall h, In h (lk_requested lk') -> exists e, In e (firstn initial_pick srt) /\ h = snd (fst e)).
+Proof. exact lookup_new_spec. Qed.
+
+Theorem c02_pick_numbers : bucket_size = 8%nat /\ initial_pick = 4%nat /\ iterative_pick = 3%nat.
+Proof. repeat split. Qed.
+
+(* (Q) THE FLAGS ARE TRUTHFUL.  After ANY events (both variants of the refresh and of the handler),
+   if no send fails: in every open search that is not in its end-game, every candidate flagged
+   "queried" is in the requested set, i.e. a get_peers to it has been sent successfully.
+   ADJUSTED: the exception is the dummy handle (id 0, address 0.0.0.0:0).  A candidate with exactly
+   that handle can be flagged without having been queried (c02_dummy_handle_caveat below: the unused
+   iterate slots hold the dummy handle and `iterate_nodes.iter().any(|(n, _)| n == &node)` compares
+   with them too).  No other node is affected. *)
+Theorem c02_flags_truthful : forall I sendok cf sr qe, (forall k, sendok k = true) -> forall id t0 evs,
+  let s := fst (run I sendok cf sr qe (ns_init id t0) evs) in
+  forall lk, In lk (ns_lookups s) -> lk_endgame lk = false ->
+  forall d h, In (d, h, true) (lk_sorted lk) -> In h (lk_requested lk) \/ h = unspecified_handle.
+Proof. exact heard_run. Qed.
+
+(* ... as an invariant of single events and of the search code *)
+Theorem c02_flags_truthful_step : forall I sendok cf sr qe, (forall k, sendok k = true) -> forall now s e,
+  (forall lk, In lk (ns_lookups s) -> lk_endgame lk = false ->
+     forall d h, In (d, h, true) (lk_sorted lk) -> In h (lk_requested lk) \/ h = unspecified_handle) ->
+  (forall lk, In lk (ns_lookups (fst (step I sendok cf sr qe now s e))) -> lk_endgame lk = false ->
+     forall d h, In (d, h, true) (lk_sorted lk) -> In h (lk_requested lk) \/ h = unspecified_handle).
+Proof. exact step_heard. Qed.
+
+Theorem c02_new_search_flags_truthful : forall I sendok own now, (forall k, sendok k = true) -> forall act target an c,
+  forall d h, In (d, h, true) (lk_sorted (fst (lookup_new I sendok own now act target an c))) ->
+    In h (lk_requested (fst (lookup_new I sendok own now act target an c))) \/ h = unspecified_handle.
+Proof. exact lookup_new_flagged. Qed.
+
+(* (T) ALL HEARD OF ARE QUERIED WHEN THE END-GAME BEGINS.  If no send fails: after any events, let a
+   search be open and not in its end-game, and let it be open and in its end-game after the next
+   event (a response or a query timeout that leaves nothing outstanding).  Then EVERY candidate of
+   the search -- every node it has ever heard of -- is in the requested set (queried in an earlier
+   round, or in the iterate round of this very step), or the outputs of this very step contain a
+   get_peers for the target addressed to it (the end-game round) -- or it is the dummy handle. *)
+Theorem c02_all_heard_queried_at_endgame : forall I sendok cf sr qe, (forall k, sendok k = true) ->
+  forall id t0 evs now e lk lk',
+  let s := fst (run I sendok cf sr qe (ns_init id t0) evs) in
+  In lk (ns_lookups s) -> lk_endgame lk = false ->
+  In lk' (ns_lookups (fst (step I sendok cf sr qe now s e))) -> lk_act lk' = lk_act lk -> lk_endgame lk' = true ->
+  forall d h flag, In (d, h, flag) (lk_sorted lk') ->
+    In h (lk_requested lk') \/ h = unspecified_handle \/
+    exists tid, In (OSend (snd h) (get_peers_msg (c_id cf) tid (lk_target lk'))) (snd (step I sendok cf sr qe now s e)).
+Proof. exact all_heard_queried_at_endgame. Qed.
+
+(* ... for a single event from any state in which the open searches have distinct activity indices
+   (c04_open_distinct_init / _step) and the flags are truthful *)
+Theorem c02_all_heard_queried_at_endgame_step : forall I sendok cf sr qe, (forall k, sendok k = true) ->
+  forall now s e lk lk',
+  (NoDup (map lk_act (ns_lookups s)) /\ forall x, In x (map lk_act (ns_lookups s)) -> (x < ns_next_act s)%nat) ->
+  (forall l, In l (ns_lookups s) -> lk_endgame l = false ->
+     forall d h, In (d, h, true) (lk_sorted l) -> In h (lk_requested l) \/ h = unspecified_handle) ->
+  In lk (ns_lookups s) -> lk_endgame lk = false ->
+  In lk' (ns_lookups (fst (step I sendok cf sr qe now s e))) -> lk_act lk' = lk_act lk -> lk_endgame lk' = true ->
+  forall d h flag, In (d, h, flag) (lk_sorted lk') ->
+    In h (lk_requested lk') \/ h = unspecified_handle \/
+    exists tid, In (OSend (snd h) (get_peers_msg (c_id cf) tid (lk_target lk'))) (snd (step I sendok cf sr qe now s e)).
+Proof. exact endgame_entry_all_queried. Qed.
+
+(* the same at the level of the search code: an answer resp. a query timeout that makes the search
+   enter its end-game ([c] is the node's context when the search code is called) *)
+Theorem c02_answer_enters_endgame : forall I sendok own now, (forall k, sendok k = true) -> forall lk c from tid r v6,
+  (lk_endgame lk = false ->
+     forall d h, In (d, h, true) (lk_sorted lk) -> In h (lk_requested lk) \/ h = unspecified_handle) ->
+  let lk' := fst (recv_response I sendok own now lk c from tid r v6) in
+  (lk_endgame lk' = false ->
+     forall d h, In (d, h, true) (lk_sorted lk') -> In h (lk_requested lk') \/ h = unspecified_handle) /\
+  (lk_endgame lk = false -> lk_endgame lk' = true ->
+     forall d h flag, In (d, h, flag) (lk_sorted lk') ->
+       In h (lk_requested lk') \/ h = unspecified_handle \/
+       exists t, In (OSend (snd h) (get_peers_msg own t (lk_target lk')))
+                    (cx_out (snd (recv_response I sendok own now lk c from tid r v6)))).
+Proof. exact recv_response_heard. Qed.
+
+Theorem c02_timeout_enters_endgame : forall I sendok own now lk c tid,
+  (lk_endgame lk = false ->
+     forall d h, In (d, h, true) (lk_sorted lk) -> In h (lk_requested lk) \/ h = unspecified_handle) ->
+  let lk' := fst (recv_timeout I sendok own now lk c tid) in
+  (lk_endgame lk' = false ->
+     forall d h, In (d, h, true) (lk_sorted lk') -> In h (lk_requested lk') \/ h = unspecified_handle) /\
+  (lk_endgame lk = false -> lk_endgame lk' = true ->
+     forall d h flag, In (d, h, flag) (lk_sorted lk') ->
+       In h (lk_requested lk') \/ h = unspecified_handle \/
+       exists t, In (OSend (snd h) (get_peers_msg own t (lk_target lk')))
+                    (cx_out (snd (recv_timeout I sendok own now lk c tid)))).
+Proof. exact recv_timeout_heard. Qed.
+
+(* a search is never in its end-game right after the step that starts it: the step in which it
+   enters its end-game is always a later one, to which the theorems above apply ... *)
+Theorem c02_started_not_endgame : forall I sendok cf sr qe now s e lk',
+  In lk' (ns_lookups (fst (step I sendok cf sr qe now s e))) ->
+  ~ In (lk_act lk') (map lk_act (ns_lookups s)) -> lk_endgame lk' = false.
+Proof. exact started_not_endgame. Qed.
+
+(* ... and a search that has nothing outstanding right after TableLookup::new -- which is exactly
+   when handle_start_lookup finishes it at once, without an end-game -- has no candidates at all *)
+Theorem c02_immediate_end_no_candidates : forall I sendok own now act target an c, (forall k, sendok k = true) ->
+  lk_active (fst (lookup_new I sendok own now act target an c)) = [] ->
+  lk_sorted (fst (lookup_new I sendok own now act target an c)) = [].
+Proof. exact lookup_new_immediate_empty. Qed.
+
+Print Assumptions c02_round_sends_meaning.
+Print Assumptions c02_heard_becomes_candidate.
+Print Assumptions c02_accept_keeps_requested.
+Print Assumptions c02_iterate_flag_meaning.
+Print Assumptions c02_iterate_slots_at_most_three.
+Print Assumptions c02_request_round.
+Print Assumptions c02_start_request_round.
+Print Assumptions c02_iterate_round_queries_slots.
+Print Assumptions c02_endgame_queries_all_unflagged.
+Print Assumptions c02_initial_picks.
+Print Assumptions c02_pick_numbers.
+Print Assumptions c02_flags_truthful.
+Print Assumptions c02_flags_truthful_step.
+Print Assumptions c02_new_search_flags_truthful.
+Print Assumptions c02_all_heard_queried_at_endgame.
+Print Assumptions c02_all_heard_queried_at_endgame_step.
+Print Assumptions c02_answer_enters_endgame.
+Print Assumptions c02_timeout_enters_endgame.
+Print Assumptions c02_started_not_endgame.
+Print Assumptions c02_immediate_end_no_candidates.
+
+(* non-vacuity.  A search for 77 with two contacts A and B.  (With 3 iterate slots an answer naming
+   only two new nodes has both queried in the iterate round, so the answer names four.)  A answers
+   after 0.1 s naming C, D, E (distances 2, 16, 64 -- closer) and F (farther than A); B stays silent.
+   Initial round: B and A.  Iterate round, in the step that handles A's answer: C, D, E -- F becomes
+   a candidate with flag false.  B's, C's, D's, E's timeouts fire; the last one leaves nothing
+   outstanding: the search enters its end-game, and that very step queries F.  All six nodes the
+   search has heard of have been queried when the end-game timer ends it at 5.1 s. *)
+Example c02_heard_all_queried :
+  let I := mkIds (fun k => N.of_nat k + 100)%N (fun k n => (N.of_nat n mod 2 ^ 24)%N) in
+  let cf := mkCfg 5 false false None in
+  let ndA := mkAddr false 167772162 7001 in let ndB := mkAddr false 167772163 7002 in
+  let ndC := mkAddr false 167772164 7003 in let ndD := mkAddr false 167772165 7004 in
+  let ndE := mkAddr false 167772166 7005 in let ndF := mkAddr false 167772167 7006 in
+  let evs := [(0, EvBootState BBootstrapped);
+              (1000000000, EvBootTable (2 ^ 159)%N ndA []); (1000000000, EvBootTable (2 ^ 158)%N ndB []);
+              (2000000000, EvStartLookup 77%N false);
+              (2100000000, EvMsg ndA (mkMsg (tid_bytes 102 1)
+                 (Resp (mkResp (2 ^ 159)%N [] [mkNodeh 79%N ndC; mkNodeh 93%N ndD; mkNodeh 13%N ndE;
+                                                 mkNodeh (3 * 2 ^ 158)%N ndF] [] None))));
+              (3500000000, EvTimer); (3600000000, EvTimer); (3600000000, EvTimer); (3600000000, EvTimer);
+              (5100000000, EvTimer)]%Z in
+  let sts := states I (fun _ => true) cf true true (ns_init 5 0) evs in
+  let outs := snd (run I (fun _ => true) cf true true (ns_init 5 0) evs) in
+  let q a k := OSend a (mkMsg (tid_bytes 102 k) (Req (GetPeers 5 77 None))) in
+  (* the outputs from the start of the search on *)
+  skipn 3 outs = [[q ndB 0; q ndA 1]; [q ndC 2; q ndD 3; q ndE 4]; []; []; []; [q ndF 6]; [OStreamEnd 2%nat]] /\
+  (* the search after each of these events: in end-game?, the candidates (port, flag) in list order,
+     the ports of the requested set *)
+  map (fun s => map (fun lk => (lk_endgame lk, map (fun e => (a_port (snd (snd (fst e))), snd e)) (lk_sorted lk),
+                                map (fun h => a_port (snd h)) (lk_requested lk))) (ns_lookups s)) (skipn 3 sts) =
+    [[(false, [(7002, true); (7001, true)], [7001; 7002])];
+     [(false, [(7003, true); (7004, true); (7005, true); (7002, true); (7001, true); (7006, false)], [7005; 7004; 7003; 7001; 7002])];
+     [(false, [(7003, true); (7004, true); (7005, true); (7002, true); (7001, true); (7006, false)], [7005; 7004; 7003; 7001; 7002])];
+     [(false, [(7003, true); (7004, true); (7005, true); (7002, true); (7001, true); (7006, false)], [7005; 7004; 7003; 7001; 7002])];
+     [(false, [(7003, true); (7004, true); (7005, true); (7002, true); (7001, true); (7006, false)], [7005; 7004; 7003; 7001; 7002])];
+     [(true, [(7003, true); (7004, true); (7005, true); (7002, true); (7001, true); (7006, true)], [7005; 7004; 7003; 7001; 7002])];
+     []].
+Proof. vm_compute. split; reflexivity. Qed.
+
+(* why (Q) and (T) except the dummy handle: A's answer names the node (id 0, 0.0.0.0:0) and then a
+   closer node C.  The dummy is put into the first slot, C replaces it there, two slots stay unused;
+   the dummy now "matches" an unused slot, so it becomes a candidate flagged as queried -- but it is
+   not in a slot, no query is ever sent to it, and the end-game round skips it. *)
+Example c02_dummy_handle_caveat :
+  let I := mkIds (fun k => N.of_nat k + 100)%N (fun k n => (N.of_nat n mod 2 ^ 24)%N) in
+  let cf := mkCfg 5 false false None in
+  let ndA := mkAddr false 167772162 7001 in let ndB := mkAddr false 167772163 7002 in
+  let ndC := mkAddr false 167772164 7003 in
+  let evs := [(0, EvBootState BBootstrapped);
+              (1000000000, EvBootTable (2 ^ 159)%N ndA []); (1000000000, EvBootTable (2 ^ 158)%N ndB []);
+              (2000000000, EvStartLookup 77%N false);
+              (2100000000, EvMsg ndA (mkMsg (tid_bytes 102 1)
+                 (Resp (mkResp (2 ^ 159)%N [] [mkNodeh 0%N (mkAddr false 0 0); mkNodeh 79%N ndC] [] None))));
+              (3500000000, EvTimer); (3600000000, EvTimer); (5100000000, EvTimer)]%Z in
+  let sts := states I (fun _ => true) cf true true (ns_init 5 0) evs in
+  let outs := snd (run I (fun _ => true) cf true true (ns_init 5 0) evs) in
+  let q a k := OSend a (mkMsg (tid_bytes 102 k) (Req (GetPeers 5 77 None))) in
+  skipn 3 outs = [[q ndB 0; q ndA 1]; [q ndC 2]; []; []; [OStreamEnd 2%nat]] /\
+  map (fun s => map (fun lk => (lk_endgame lk, map (fun e => (a_port (snd (snd (fst e))), snd e)) (lk_sorted lk),
+                                map (fun h => a_port (snd h)) (lk_requested lk))) (ns_lookups s)) (skipn 4 sts) =
+    [[(false, [(7003, true); (0, true); (7002, true); (7001, true)], [7003; 7001; 7002])];
+     [(false, [(7003, true); (0, true); (7002, true); (7001, true)], [7003; 7001; 7002])];
+     [(true, [(7003, true); (0, true); (7002, true); (7001, true)], [7003; 7001; 7002])];
+     []].
+Proof. vm_compute. split; reflexivity. Qed.
